@@ -656,6 +656,9 @@ def parse_grid(grid_data, parseAll=True):
         raise ZincParseException(
             'Failed to parse: %s' % reformat_exception(pe, pe.lineno),
             grid_data, pe.lineno, pe.col)
+    except ZincParseException:
+        # Already carries its position (missing version header: line 1)
+        raise
     except:
         LOG.debug('Failing grid: %r', grid_data, exc_info=1)
         (_, exc, _) = sys.exc_info()
